@@ -11,5 +11,8 @@ t = time.time()
 r = ex.explore(pl['scenario'], pl['args'], tv_every=3, deadline=t + dl)
 ex.close()
 print(sys.argv[1], 'paths', r['paths'], 'exhaustive', r['exhaustive'], 'wall %.0fs' % (time.time() - t), 'tv', r['tv'], 'tv_bad', len(r['tv_bad']), 'err', (r['error'] or '')[:200])
+import collections
+for k, n in collections.Counter((v['prop'], v['role']) for v in r['violations']).most_common(12):
+    print('  VIOL', k, n)
 for tb in r['tv_bad'][:2]:
     print('  TVBAD', str(tb)[:400])
